@@ -116,7 +116,30 @@ def lake_build(targets, timeout=None):
     if timeout is None:
         timeout = float(os.environ.get("VERIF_BUILD_TIMEOUT_S", 0)) or (600 if os.environ.get("VERIF_TIER", "quick") == "quick" else 2400)
     with LeanLock():
+        # a build of byte-identical sources that already FAILED or timed out (with at least this much time) fails again: remember
+        # failures only (a success is re-established by lake's own incremental build), so that 19 checks against one broken tree do not
+        # each wait for the same time-out
+        h = hashlib.sha256()
+        for sub in ("QModel", "QProofs", "QProps"):
+            for p in sorted((LEAN_DIR / sub).rglob("*.lean")):
+                h.update(p.read_bytes())
+        h.update((LEAN_DIR / "Driver.lean").read_bytes())
+        memo = LEAN_DIR / ".lake" / "failed_build.json"
+        try:
+            m = json.loads(memo.read_text())
+        except Exception:  # noqa: BLE001
+            m = {}
+        fresh = (not m.get("timed_out")) or time.time() - m.get("ts", 0) < 3600   # a time-out may be load: believe it for an hour only
+        if m.get("sources") == h.hexdigest() and m.get("timeout", 0) >= timeout and set(m.get("failed_targets", [])) & set(targets) and fresh:
+            return False, "[same sources as a build that already failed]\n" + m.get("log", "")[-1500:]
         rc, out = _run(["lake", "build", *targets], cwd=LEAN_DIR, timeout=timeout, env=lean_env())
+        if rc != 0:
+            bad = [t for t in targets if re.search(r"(✖|error).*" + re.escape(t.split(".")[-1]), out)] or list(targets)
+            if rc == 124:
+                bad = list(targets)
+            (LEAN_DIR / ".lake").mkdir(exist_ok=True)
+            memo.write_text(json.dumps({"sources": h.hexdigest(), "timeout": timeout, "failed_targets": bad, "log": out[-3000:],
+                                        "timed_out": rc == 124, "ts": time.time()}))
     return rc == 0, out
 
 
